@@ -162,6 +162,10 @@ Proof.
   - (* ODownWrong *)
     destruct (sp_take c st (unext (wuw w)) v k (match k with TPop => 0 | _ => idx end) KDrop) as [r0|] eqn:E0; [|discriminate].
     injection Hr as <-. exact (exec_down_wrong c w st v k idx r0 Hwf HW Hfuse E0).
+  - (* OWrite *)
+    exact (exec_write c w st hk v idx r HW Hfuse Hr).
+  - (* OSwap *)
+    destruct (N.eqb_spec pr 0) as [->|]; [|discriminate]. exact (exec_swap c w st v1 i v2 j r HW Hfuse Hr).
 Qed.
 
 (** ** One [run_step] (what the harness and the extracted model execute per script step) *)
@@ -211,6 +215,8 @@ Proof.
     try (destruct (resizable bk); [apply sp_new_nx in H; exact H|discriminate]);
     try (destruct (sp_take c st nx v k (match k with TPop => 0 | _ => idx end) KDrop) as [r0|] eqn:E0; [|discriminate];
          apply sp_take_nx in E0; injection H as <-; destruct (s_out r0 =? 0); cbn [s_nx s_out]; lia);
+    try (unfold sp_write in H; crush H; cbn; split; lia);
+    try (unfold sp_swap in H; crush H; cbn; split; lia);
     crush H; cbn; split; lia.
 Qed.
 Lemma spec_nx_ge c st nx o r : spec_step c st nx o = Some r -> nx <= s_nx r.
@@ -515,7 +521,8 @@ Definition ex_ops : list op :=
     OProbeTypes 7 0; OSwapWrong 7 2; OSwapWrong 7 3; OPlacement;
     OWithCapacity 9 BHeap 5; OWithCapacity 10 (BReloc 4) 2; OPush Erased 9 SWrap; OPush Erased 10 SWrap;
     OPush Erased 9 (SWrong 7); OInsert Erased 9 5 (SBoxWrong 2);     (* refused before the index is looked at *)
-    ODownWrong 7 TRemove 1; ODownWrong 7 TPop 0; ODownWrong 7 TSwapRemove 4 ].
+    ODownWrong 7 TRemove 1; ODownWrong 7 TPop 0; ODownWrong 7 TSwapRemove 4;
+    OWrite 0 9 0; OWrite 1 9 3; OSwap 0 9 0 10 0; OSwap 0 9 0 10 1; OGet Erased 9 0; OGet Erased 10 0 ].
 
 Example ex_spec_defined : exists rs, spec_run ex_cfg [] 1 ex_ops = Some rs /\ length rs = length ex_ops.
 Proof. eexists. split; [vm_compute; reflexivity|reflexivity]. Qed.
@@ -538,7 +545,8 @@ Example ex_outcomes :
      (0,0,[]); (0,0,[]); (0,0,[3; 1; 23; 2; 1; 34; 1; 1; 33; 0; 0; 0; 0; 0; 0; 0]); (0,0,[3; 1; 33; 1; 1; 34; 0; 0; 0; 0]);
      (0,0,[3; 1; 23; 2; 2; 1; 34; 1; 1; 33; 0; 0; 0; 0; 2; 1; 34; 1; 1; 33; 0; 0; 0; 0]); (0,0,[33; 1; 3]); (1,0,[]);
      (0,0,[1; 0; 1; 0; 1; 3; 1; 1; 3; 1; 0; 1; 0; 1; 0]); (2,2,[]); (2,1,[]); (0,0,[0]);
-     (0,0,[]); (0,0,[]); (0,0,[]); (0,0,[]); (2,2,[]); (2,2,[]); (0,0,[1; 3; 0; 0; 0]); (0,0,[1; 3; 0; 0; 0]); (2,1,[])].
+     (0,0,[]); (0,0,[]); (0,0,[]); (0,0,[]); (2,2,[]); (2,2,[]); (0,0,[1; 3; 0; 0; 0]); (0,0,[1; 3; 0; 0; 0]); (2,1,[]);
+     (0,0,[36]); (2,1,[]); (0,0,[]); (2,1,[]); (0,0,[37]); (0,0,[40])].
 Proof. vm_compute. reflexivity. Qed.
 
 (** ** Corollaries in the vocabulary of the properties *)
